@@ -437,11 +437,21 @@ def install_tripwires(modules):
             TRIPPED.append("datetime.today")
             return _dt.datetime.today()
 
+    class TripDate(_dt.date):
+        _pyvc_real = _dt.date
+
+        @classmethod
+        def today(cls):
+            TRIPPED.append("date.today")
+            return _dt.date.today()
+
     for m in modules:
         d = m.__dict__
         for k, v in list(d.items()):
             if v is _dt.datetime:
                 d[k] = TripDatetime
+            elif v is _dt.date:
+                d[k] = TripDate
             elif getattr(v, "__module__", None) in ("time", "secrets", "uuid", "random") and callable(v) and not hasattr(v, "_pyvc_orig"):
                 src = sys.modules.get(v.__module__)
                 w = getattr(src, getattr(v, "__name__", ""), None) if src else None
